@@ -123,6 +123,10 @@ impl<'a> Xw<'a> {
             return;
         }
         self.out.push('>');
+        // a comment or a processing instruction in front of the text is legal XML and part of no value
+        if self.rng.chance(1, 12) {
+            self.out.push_str(if self.rng.chance(1, 2) { "<!-- unit? -->" } else { "<?note x?>" });
+        }
         if string_value {
             // CDATA (split where needed), escaped text, or a mixture
             match self.rng.below(3) {
